@@ -349,6 +349,115 @@ impl Serialize for SelfRef {
     }
 }
 
+/// identity-tracked payload for the in-place deserialisation of a UniqueArc
+pub struct Tracked {
+    id: u32,
+    v: u64,
+}
+thread_local! {
+    static T_DROPS: RefCell<Vec<u32>> = const { RefCell::new(Vec::new()) };
+    static T_NEXT: Cell<u32> = const { Cell::new(1) };
+}
+impl Tracked {
+    fn mk(v: u64) -> Tracked {
+        let id = T_NEXT.with(|n| {
+            n.set(n.get() + 1);
+            n.get()
+        });
+        Tracked { id, v }
+    }
+}
+impl Drop for Tracked {
+    fn drop(&mut self) {
+        let id = self.id;
+        T_DROPS.with(|d| d.borrow_mut().push(id));
+    }
+}
+impl<'de> Deserialize<'de> for Tracked {
+    fn deserialize<D: Deserializer<'de>>(d: D) -> Result<Tracked, D::Error> {
+        struct V;
+        impl<'de> Visitor<'de> for V {
+            type Value = Tracked;
+            fn expecting(&self, f: &mut fmt::Formatter) -> fmt::Result {
+                f.write_str("Tracked")
+            }
+            fn visit_seq<A: SeqAccess<'de>>(self, mut a: A) -> Result<Tracked, A::Error> {
+                let x: u64 = a.next_element()?.ok_or_else(|| de::Error::invalid_length(0, &self))?;
+                let y: u64 = a.next_element()?.ok_or_else(|| de::Error::invalid_length(1, &self))?;
+                Ok(Tracked::mk(x + y))
+            }
+        }
+        d.deserialize_any(V)
+    }
+}
+
+/// `deserialize_in_place` into a UniqueArc: afterwards the handle holds the new value (the old one destroyed once), or,
+/// on an error, the old value untouched; nothing is destroyed twice
+fn unique_in_place_case(out: &mut Vec<Value>) {
+    use Tok::*;
+    let toks = vec![Seq(2), U64(40), U64(2)];
+    let mut inputs: Vec<(usize, usize)> = (0..=4).map(|k| (k, toks.len())).collect();
+    for cut in 0..toks.len() {
+        inputs.push((0, cut));
+    }
+    for (k, cut) in inputs {
+        let t = &toks[..cut];
+        T_DROPS.with(|d| d.borrow_mut().clear());
+        let (p, c) = (Cell::new(0), Cell::new(0));
+        let rv = Tracked::deserialize(&mut De { toks: t, pos: &p, calls: &c, fail_at: k, hr: true });
+        let want_ok = rv.is_ok();
+        drop(rv);
+        T_DROPS.with(|d| d.borrow_mut().clear());
+        let mut u = UniqueArc::new(Tracked::mk(5));
+        let old_id = u.id;
+        let (p, c) = (Cell::new(0), Cell::new(0));
+        let r = <UniqueArc<Tracked> as Deserialize>::deserialize_in_place(&mut De { toks: t, pos: &p, calls: &c, fail_at: k, hr: true }, &mut u);
+        let ok = r.is_ok();
+        let old_drops_while_alive = T_DROPS.with(|d| d.borrow().iter().filter(|i| **i == old_id).count());
+        let value_ok = if ok { u.v == 42 && old_drops_while_alive == 1 } else { u.v == 5 && u.id == old_id && old_drops_while_alive == 0 };
+        drop(r);
+        drop(u);
+        let twice = T_DROPS.with(|d| {
+            let v = d.borrow();
+            v.iter().any(|i| v.iter().filter(|j| *j == i).count() > 1)
+        });
+        out.push(json!({"op": "de_in_place", "payload": "Tracked", "kind": "unique", "k": k, "cut": cut, "ncalls": 3, "others": 0,
+                        "agree": (ok == want_ok) as u8, "ok": ok as u8, "value_ok": (value_ok && !twice) as u8, "others_intact": 1,
+                        "count": 1, "others_count": 0, "moved": ok as u8, "live_delta": 0, "left": 0}));
+    }
+}
+
+/// a payload type that implements Deserialize<'static> only (it borrows from a static input): a handle of it is
+/// deserialisable exactly when the payload is
+pub struct OnlyStatic(pub &'static str);
+impl Deserialize<'static> for OnlyStatic {
+    fn deserialize<D: Deserializer<'static>>(_d: D) -> Result<OnlyStatic, D::Error> {
+        Ok(OnlyStatic("static"))
+    }
+}
+fn bound_probe(out: &mut Vec<Value>) {
+    struct P<T>(std::marker::PhantomData<T>);
+    trait No {
+        fn yes(&self) -> bool {
+            false
+        }
+    }
+    impl<T> No for P<T> {}
+    #[allow(dead_code)]
+    impl<T: Deserialize<'static>> P<T> {
+        fn yes(&self) -> bool {
+            true
+        }
+    }
+    let payload = P::<OnlyStatic>(std::marker::PhantomData).yes();
+    let arc = P::<Arc<OnlyStatic>>(std::marker::PhantomData).yes();
+    let uniq = P::<UniqueArc<OnlyStatic>>(std::marker::PhantomData).yes();
+    out.push(json!({"op": "bound", "payload": "a type that is only Deserialize<'static>", "kind": "arc", "k": 0,
+                    "payload_is": payload as u8, "handle_is": arc as u8}));
+    out.push(json!({"op": "bound", "payload": "a type that is only Deserialize<'static>", "kind": "unique", "k": 0,
+                    "payload_is": payload as u8, "handle_is": uniq as u8}));
+}
+
 fn live_blocks() -> usize {
     alloc::table().iter().filter(|r| r.live).count()
 }
@@ -582,6 +691,8 @@ fn ser_reentrant_case(out: &mut Vec<Value>) {
 pub fn run(out_path: &str) {
     let mut out: Vec<Value> = vec![json!({"op": "init"})];
     ser_reentrant_case(&mut out);
+    unique_in_place_case(&mut out);
+    bound_probe(&mut out);
     let outer = Outer { a: 7, inner: Inner { x: -3, s: "in".into() }, v: vec![Inner { x: 1, s: "a".into() }, Inner { x: 2, s: "b".into() }] };
     ser_case("u64", &42u64, &mut out);
     ser_case("String", &String::from("hello"), &mut out);
